@@ -93,7 +93,10 @@ def case(chk, i):
         rc, so, se, _ = sh([exe], timeout=60)
         files["out.txt"] = so[-20000:]
         if rc != 0:
-            out.append(Verdict(VIOLATED, cname, "calling through the bindings crashed (rc=%s): %s" % (rc, se[-400:]), files=files, obs=obs))
+            sig = None
+            if oname == "opaque-agg" and any(any(ft.kind == "float" for _, ft, _, _ in r.fields) for r in lib.recs):
+                sig = "c04.opaque-float-aggregate-by-value"      # a mis-passed callback pointer or aggregate makes the callee fault
+            out.append(Verdict(VIOLATED, cname, "calling through the bindings crashed (rc=%s): %s" % (rc, se[-400:]), files=files, obs=obs, signature=sig))
             continue
         lines = {}
         csig, rsig, gdecl = {}, {}, {}
